@@ -55,6 +55,12 @@ func processor(w, c, b, n, errAt int) func() vrt.Run { return processorP(w, c, b
 
 // processorP: additionally the panicAt-th operation panics.
 func processorP(w, c, b, n, errAt, panicAt int) func() vrt.Run {
+	return processorX(w, c, b, n, errAt, panicAt, false)
+}
+
+// processorX: with waits, Wait has three callers - the submitting goroutine after Close, and the
+// collecting goroutine twice in a row (Wait may be called by anybody, any number of times).
+func processorX(w, c, b, n, errAt, panicAt int, waits bool) func() vrt.Run {
 	return func() vrt.Run {
 		var got []string
 		var extra string
@@ -82,12 +88,18 @@ func processorP(w, c, b, n, errAt, panicAt int) func() vrt.Run {
 					}
 				}
 				p.Close()
+				if waits {
+					p.Wait()
+				}
 			})
 			for i := 0; i < n; i++ {
 				v, e := p.Result()
 				got = append(got, fmt.Sprint(v, e))
 			}
 			p.Wait()
+			if waits {
+				p.Wait()
+			}
 			v, e := p.Result() // the result channel must be closed by now
 			extra = fmt.Sprint(v, e)
 			vrt.Join(sub)
@@ -198,7 +210,8 @@ func mapDriver(size, threads, maxChunk int, viaPromise bool) func() vrt.Run {
 
 // promise driver: pre operations run by the main thread first, then the
 // concurrent operations each in its own thread.  Operations: "F<v>" Fulfill(v),
-// "X<v>" Fail(v, err), "W" Wait.
+// "X<v>" Fail(v, err), "N" Fulfill(nil), "W" Wait.  (N is never combined with X: Fail looks at the content
+// of the mailbox, and whether it may follow a fulfilment with nil is not something the statement says.)
 func promise(pre []string, par []string) func() vrt.Run {
 	return func() vrt.Run {
 		all := append(append([]string{}, pre...), par...)
@@ -209,6 +222,12 @@ func promise(pre []string, par []string) func() vrt.Run {
 			case 'F':
 				err := p.Fulfill(int(o[1] - '0'))
 				if err == nil {
+					out[i] = "ok"
+				} else {
+					out[i] = "err"
+				}
+			case 'N': // a Fulfill whose value is nil: as much a fulfilment as any other
+				if p.Fulfill(nil) == nil {
 					out[i] = "ok"
 				} else {
 					out[i] = "err"
@@ -266,8 +285,10 @@ func promise(pre []string, par []string) func() vrt.Run {
 					break
 				}
 			}
-			want := fmt.Sprint(int(all[winner][1]-'0'), error(nil))
-			if all[winner][0] == 'X' {
+			var want string
+			if all[winner][0] == 'N' {
+				want = fmt.Sprint(nil, error(nil))
+			} else if want = fmt.Sprint(int(all[winner][1]-'0'), error(nil)); all[winner][0] == 'X' {
 				want = fmt.Sprint(int(all[winner][1]-'0'), errOp)
 			}
 			for i, o := range all {
@@ -306,6 +327,9 @@ func drivers(quick bool) []conc.Driver {
 	add("processor-w1-c1-b1-n1-panic0", processorP(1, 1, 1, 1, -1, 0))
 	add("processor-w2-c2-b2-n2-panic1", processorP(2, 2, 2, 2, -1, 1))
 	add("processor-w2-c0-b0-n2-panic0", processorP(2, 0, 0, 2, -1, 0))
+	// Wait called by two goroutines, and twice in a row by one of them
+	add("processor-w1-c1-b1-n1-waits3", processorX(1, 1, 1, 1, -1, -1, true))
+	add("processor-w2-c0-b1-n2-waits3", processorX(2, 0, 1, 2, -1, -1, true))
 	if quick {
 		add("map-s1-t3-c1", mapper(1, 3, 1)) // fewer elements than half the threads (thorough has every t3 driver)
 	}
@@ -352,6 +376,8 @@ func drivers(quick bool) []conc.Driver {
 		{[]string{"F1"}, []string{"F2", "W"}},
 		{[]string{"F1"}, []string{"F2", "W", "W"}},
 		{[]string{"X1"}, []string{"F2", "W"}},
+		{[]string{"N"}, []string{"F2", "W"}},
+		{nil, []string{"N", "F2", "W"}},
 	}
 	if !quick {
 		pds = append(pds, pd{nil, []string{"F1", "F2", "W", "W"}}, pd{[]string{"F1"}, []string{"X2", "W", "W"}}, pd{nil, []string{"X1", "X2", "W"}})
